@@ -324,7 +324,28 @@ def c16(run):
                                      "the KEK label of the NS is the request's SenderID"])
 
 
-PROPS = {"C01": c01, "C16": c16, "C17": c17, "C18": c18, "C19": c19, "C20": c20, "C11": c11, "C14": c14, "C15": c15, "C12": c12, "C13": c13, "C05": c05, "C02": c02, "C03": c03, "C04": c04, "C06": c06, "C07": c07, "C08": c08}
+def c09(run):
+    cases = os.path.join(run.scratch, "total-cases.ndjson")
+    run.design_check("TotalShapes", workers=1, env={"VERIF_CASES": cases})
+    n = dedupe_cases(cases)
+    run.coverage_extra["tlc_generated_cases"] = n
+    t = run.record("total", "cases", cases=cases)
+    run.validate("total", t, "Trace_total", label="(R) guard-boundary shapes of application-layer / MAC-command / payload decoders", chunk=20000)
+    bcases = gen_frame_cases(run, "bytes")
+    t = run.record("frame", "bytecases", cases=bcases)
+    run.validate("frame", t, "Trace_frame", label="(R) frame byte shapes through decode + decrypt-then-decode + validate", chunk=8000)
+    t = run.record("total", "random", n=T(run, 60000, 6000000))
+    run.validate("total", t, "Trace_total", label="(V) %d entry points x random / textual / mutated inputs of 0..512 bytes" % 44, chunk=100000)
+    t = run.record("frame", "bytes", n=T(run, 15000, 800000))
+    run.validate("frame", t, "Trace_frame", label="(V) uniform + mutated frames: every follow-up decoder with random keys", chunk=10000)
+    t = run.record("maccmd", "decodeN", n=T(run, 500, 20000))
+    run.validate("maccmd", t, "Trace_maccmd", label="(V) MAC payload decoders incl. wrong lengths", chunk=50000)
+    run.require_kinds("total/total", "frame/bytes", "maccmd/dec")
+    run.rc = run.finish(assumptions=["C09 asserts totality only (value or error, input untouched); which inputs are accepted is decided by C01/C06/C08",
+                                     "'time linear in the input' is enforced only as a 5 s per-call deadline; coverage-guided fuzzing is not used (DESIGN sec. 4)"])
+
+
+PROPS = {"C01": c01, "C09": c09, "C16": c16, "C17": c17, "C18": c18, "C19": c19, "C20": c20, "C11": c11, "C14": c14, "C15": c15, "C12": c12, "C13": c13, "C05": c05, "C02": c02, "C03": c03, "C04": c04, "C06": c06, "C07": c07, "C08": c08}
 
 
 def replay(run, path):
